@@ -8,7 +8,7 @@ suite passes with the patch, (3) the demonstration passes WITHOUT the patch and 
 """
 import json, os, re, shutil, subprocess, sys, time
 
-WT = "/tmp/seedverify"
+WT = os.environ.get("SEEDVERIFY_WT", "/tmp/seedverify")
 
 def sh(cmd, **kw):
     return subprocess.run(cmd, shell=True, stdout=subprocess.PIPE, stderr=subprocess.STDOUT, text=True, **kw)
